@@ -51,7 +51,8 @@ BUDGET_FACTOR = 8
 SLIDE_SAMPLE_CAP = 30
 MATCH_SAMPLE_CAP = 12
 
-MATCH_KINDS = ("match-cmp", "match-regex", "match-expr")
+MATCH_KINDS = ("match-cmp", "match-regex", "match-expr", "match-and-first", "match-and-second", "match-or-first", "match-or-second",
+               "match-when-sibling", "match-child", "match-child-await", "match-grandchild")
 ERR_STMT = {
     "bad-expr": ['$e = "t" + 3'],
     "unknown-var": ["$e = $nope + 1"],
@@ -64,6 +65,20 @@ ERR_STMT = {
     "match-cmp": ["match M(x=less_than(3))"],
     "match-regex": ['match M(x=regex("("))'],
     "match-expr": ['match M(x="t" + 3)'],
+    # the raising head has SIBLING heads of the same flow / heads of CHILD flows waiting for the same event (candidates of one scan)
+    "match-and-first": ['match M(x=$nope.value) and M(x="str")'],
+    "match-and-second": ['match M(x="str") and M(x=$nope.value)'],
+    "match-or-first": ["match M(x=less_than(3)) or M()"],
+    "match-or-second": ["match M() or M(x=less_than(3)) or M(y=1)"],
+    "match-when-sibling": ["when M(x=$nope.value)", "  $e = 1", "or when M()", "  $e = 2"],
+    "match-child": ["start helper_m", "match M(x=$nope.value)"],
+    "match-child-await": ["start helper_m", "start helper_m2", 'match M(x=regex("("))'],
+    "match-grandchild": ["start helper_g", "match M(x=less_than(3))"],
+}
+ERR_FLOWS = {
+    "match-child": ["flow helper_m", "  match M()", "  match NeverH()", ""],
+    "match-child-await": ["flow helper_m", "  match M()", "  match NeverH()", "", "flow helper_m2", "  match M(x=\"str\")", "  match NeverH()", ""],
+    "match-grandchild": ["flow helper_m", "  match M()", "  match NeverH()", "", "flow helper_g", "  start helper_m", "  match M() and M(x=\"str\")", "  match NeverH()", ""],
 }
 M_EVENT = {"type": "M", "x": "str"}
 
@@ -129,6 +144,7 @@ def build_program(stmts, inject_at, kind, mode, nested):
     src.append("")
     for s in subs:
         src += [f"flow {s}", f"  match S{s[3:]}()", ""]
+    src += ERR_FLOWS.get(kind, [])
     names = []
     for e in script:
         if e["type"] not in names:
@@ -321,7 +337,11 @@ def install():
                         ms.append([fuid, huid])
                 except Exception:  # noqa
                     pass
-            st["scan"] = {"event": event.name, "cands": ms, "scores": []}
+            hs = {}
+            for fuid, _h in ms:
+                if fuid not in hs:
+                    hs[fuid] = list(state.flow_states[fuid].heads.keys())
+            st["scan"] = {"event": event.name, "cands": ms, "scores": [], "heads": [[f, u] for f, u in hs.items()]}
             if ms and len(st["scans"]) < MATCH_SAMPLE_CAP * 4:
                 st["scans"].append(st["scan"])
         return r
@@ -423,6 +443,9 @@ def run_impl(case):
         for row in s["cands"] + s["scores"]:
             for j in (0, 1):
                 row[j] = ids.setdefault(row[j], len(ids) + 1)
+        for row in s.get("heads", []):
+            row[0] = ids.setdefault(row[0], len(ids) + 1)
+            row[1] = [ids.setdefault(u, len(ids) + 1) for u in row[1]]
     return obs
 
 
@@ -592,7 +615,7 @@ def model_requests(case, obs):
         # what the model needs: the scores of the candidates in scan order; the ones after a raising candidate are unknown on the
         # pinned tree (never computed), the model's as-is verdict does not depend on them
         full = cands + [[f, h, "zero"] for f, h in s["cands"][len(cands):]]
-        reqs.append({"m": "C10.match", "cands": full})
+        reqs.append({"m": "C10.match", "cands": full, "heads": s.get("heads", [])})
     return reqs
 
 
@@ -645,31 +668,29 @@ def compare(case, obs, mouts):
             return f"slide on flow {rec['flow']} from {rec['pos']}: real stop {rs} at {rec['final']}, model stop {stop}"
         if m["stopping"] != (rec["fl_status"] == "STOPPING") and not rec["exc"]:
             return f"slide on flow {rec['flow']}: flow STOPPING={rec['fl_status']} model stopping={m['stopping']}"
-    variant = obs_variant(obs)
     for s in obs["scans"]:
         m = mouts[i]
         i += 1
         raised = any(x == "err" for _, _, x in s["scores"])
         complete = len(s["scores"]) == len(s["cands"])
-        if not raised:
-            if m["asis"] is None:
-                return f"matching phase of {s['event']}: no candidate raised but the as-is model says the phase is abandoned"
-            if not complete:
-                return f"matching phase of {s['event']}: {len(s['cands'])} candidates, only {len(s['scores'])} scored without any exception"
-            exp = [[f, h] for f, h, x in s["scores"] if x == "pos"]
-            if m["repaired"]["matching"] != exp or m["asis"]["matching"] != exp:
-                return f"matching phase of {s['event']}: model matching heads {m['repaired']['matching']} vs real {exp}"
-        else:
-            if m["asis"] is not None:
-                return f"matching phase of {s['event']}: a candidate raised but the as-is model does not abandon the phase"
-            if variant == "asis" and s["scores"][-1][2] != "err":
-                return f"matching phase of {s['event']}: pinned tree expected to stop at the raising candidate"
-            if variant == "repaired" and not complete:
-                return f"matching phase of {s['event']}: repaired tree expected to score every candidate"
-            if variant == "repaired":
-                exp_err = [[f, h] for f, h, x in s["scores"] if x == "err"]
-                if m["repaired"]["erroring"] != exp_err:
-                    return f"matching phase of {s['event']}: model erroring {m['repaired']['erroring']} vs real {exp_err}"
+        if not m["lookup_ok"]:
+            return f"matching phase of {s['event']}: the model cannot look up a candidate head that the real scan was given"
+        if not complete:
+            # current tree = abort AFTER the loop (theorem matching_phase_lookup_safe): every candidate is scored
+            how = "raised out of the scan" if s["scores"] and s["scores"][-1][2] == "err" else "a later candidate look-up failed"
+            alt = "" if m["lookup_ok_abort_in_loop"] else " (this is what the model of aborting INSIDE the loop predicts)"
+            return (f"matching phase of {s['event']}: {len(s['cands'])} candidates but only {len(s['scores'])} scored, {how}; "
+                    f"the model (raising heads collected, flows aborted after the loop) scores all{alt}")
+        exp = [[f, h] for f, h, x in s["scores"] if x == "pos"]
+        if m["repaired"]["matching"] != exp:
+            return f"matching phase of {s['event']}: model matching heads {m['repaired']['matching']} vs real {exp}"
+        exp_err = [[f, h] for f, h, x in s["scores"] if x == "err"]
+        if m["repaired"]["erroring"] != exp_err:
+            return f"matching phase of {s['event']}: model erroring {m['repaired']['erroring']} vs real {exp_err}"
+        if not raised and (m["asis"] is None or m["asis"]["matching"] != exp):
+            return f"matching phase of {s['event']}: no candidate raised but the pre-fix model disagrees"
+        if raised and m["asis"] is not None:
+            return f"matching phase of {s['event']}: a candidate raised but the pre-fix model does not abandon the phase"
     return None
 
 
